@@ -205,7 +205,12 @@ def skeleton(toks, pos):
         elif k == 'N':
             sk.append('N')
         elif k == 'W':
-            sk.append('I' if prev == ('W', 'AS') else raw)
+            if prev == ('W', 'AS'):
+                # the word after AS is a label, whatever it spells (also `as`): one identifier token, and not itself an AS keyword
+                sk.append('I')
+                prev = ('I', raw)
+                continue
+            sk.append(raw)
         elif k == 'C':
             sk.append('COMMENT')
         else:
